@@ -630,7 +630,7 @@ def gen_15(ctx, rng, absent=False):
     full = dialect in ('f1', 'f0')
     cfgs = []
     if full:
-        ncfg = rng.randint(2, 8)
+        ncfg = rng.randint(6, 9)                 # 15+ level pairs: enough distinct transitions for 12 blocks of one type
         used = set()
         for k in range(1, ncfg + 1):
             while True:
